@@ -1,0 +1,23 @@
+//! Verification hooks, compiled only with `--cfg memcrs_verif`.
+//!
+//! One generic observation / failpoint channel: the code under test calls
+//! `emit(point, a, b)` at a few named places; nothing happens until an
+//! external harness installs a callback, which may log the event or delay the
+//! calling thread. No hook changes control flow.
+use std::sync::OnceLock;
+
+pub type Hook = Box<dyn Fn(&'static str, u64, u64) + Send + Sync>;
+
+static HOOK: OnceLock<Hook> = OnceLock::new();
+
+/// Installs the process wide callback (first caller wins).
+pub fn install(hook: Hook) -> bool {
+    HOOK.set(hook).is_ok()
+}
+
+#[inline]
+pub fn emit(point: &'static str, a: u64, b: u64) {
+    if let Some(hook) = HOOK.get() {
+        hook(point, a, b);
+    }
+}
